@@ -1,8 +1,11 @@
+import SignaloModel.Proofs.BridgeSimple
 import SignaloModel.Proofs.SmoothProofs
 /-!
 # C06 — Scalar Kalman filter follows the textbook recursion and stays in the data hull
 
-Property theorems for C06 (statements are printed by `#check`, axioms by `#print axioms`;
+Property theorems for C06 (statements are printed by `#check`, axioms by `#check @Registry.kalman_step_textbook
+#check @Registry.kalman_state
+#print axioms`;
 `bin/check C06` re-elaborates this file on every run and audits the axiom lists).
 -/
 open SignaloModel
@@ -14,3 +17,5 @@ open SignaloModel
 #print axioms kalman_step_hull
 #print axioms kalman_zero_control
 #print axioms Smooth.kalman_hull
+#print axioms Registry.kalman_step_textbook
+#print axioms Registry.kalman_state
